@@ -4,6 +4,7 @@ import RocflModel.ValidateNums
 import RocflModel.Validator
 import RocflModel.InvCheck
 import RocflModel.Cli
+import RocflModel.S3
 /-
   Driver side of the physical-layer protocol: prints the model's install-phase scripts and runs the
   Lean trace monitors on observed traces.
@@ -231,6 +232,51 @@ def physStep (op : String) (a : List String) : String :=
     match parseVRes root, parseVRes hier with
     | some r, some h => s!"ok {Cli.validateRepoExit (csv se) [] r h (rs.map parseVRes)}"
     | _, _ => "bad-arg"
+  -- script-s3key <prefix as given> <relative path>: the key, and the key made relative again
+  | "script-s3key", [pre, rel] =>
+    match decodeArg pre, decodeArg rel with
+    | some pre, some rel =>
+      let p := S3.normPrefix pre
+      let k := S3.keyOf p rel
+      let back := match S3.relativize p k with
+        | some r => encodeArg r
+        | none => "panic"
+      s!"ok {encodeArg k} {back}"
+    | _, _ => "bad-arg"
+  -- script-s3pages <page size> <prefix> <delim 0|1> <key>*: entries of the listing and the number of requests `list_prefix` makes
+  | "script-s3pages", ps :: pfx :: delim :: keys =>
+    match ps.toNat?, decodeArg pfx, keys.mapM decodeArg with
+    | some ps, some pfx, some keys =>
+      let all := S3.entries keys pfx (delim == "1")
+      let pages := if ps == 0 then 0 else (all.length + ps - 1) / ps
+      let got := S3.listAll all ps (all.length + 1) 0
+      let showE : S3.Entry → String := fun e => match e with
+        | .key k => "K:" ++ encodeArg k
+        | .dir d => "D:" ++ encodeArg d
+      s!"ok requests={max pages 1} " ++ " ".intercalate (got.map showE)
+    | _, _, _ => "bad-arg"
+  -- script-s3chunks <length>: sizes of the upload bodies
+  | "script-s3chunks", [len] =>
+    match len.toNat? with
+    | some n =>
+      if n ≤ S3.partSize then s!"ok single {n}"
+      else
+        let full := n / S3.partSize
+        let rest := n % S3.partSize
+        s!"ok multipart {full}x{S3.partSize}" ++ (if rest > 0 then s!"+{rest}" else "")
+    | none => "bad-arg"
+  -- script-s3commit <files> <upgrade 0|1> <fault index|->
+  | "script-s3commit", [n, up, f] =>
+    match n.toNat? with
+    | some n =>
+      let showR : S3.Req → String := fun r => match r with
+        | .putVersionFile _ => "PUT-version-file" | .putRootInventory => "PUT-root-inventory" | .putRootSidecar => "PUT-root-sidecar"
+        | .listRoot => "LIST-root" | .putDeclaration => "PUT-declaration" | .deleteOldDeclaration => "DELETE-old-declaration"
+      let fault := if f == "-" then none else f.toNat?
+      let (o, ok) := S3.exec n (up == "1") fault
+      let cls := if o == S3.oldObj then "old" else if o == S3.newObj n (up == "1") then "new" else "other"
+      s!"ok {cls} {b01 ok} " ++ ",".intercalate ((S3.script n (up == "1")).map showR)
+    | none => "bad-arg"
   | "script-invcheck", args =>
     match parseAInv args with
     | none => "bad-arg"
